@@ -29,7 +29,7 @@ def restated(sig_class, node, first, last):
     if isinstance(node.token, (NoteRestToken, ChordToken)):
         return False
     if first < last:
-        return any(restated(sig_class, c, first + 1, last) for c in node.children)
+        return any(c.stage <= last and restated(sig_class, c, c.stage, last) for c in node.children)
     return False
 
 
@@ -39,15 +39,16 @@ def R(sig_class, node, first, last):
     return restated(sig_class, node, first, last)
 
 
-def subtree(rng, depth):
+def subtree(rng, depth, stage=1):
     """native runs: a small random spine tree below a child (signatures, notes and other tokens, up to `depth` more levels)"""
     from pyvc.contract import ConcreteFactory
     f = ConcreteFactory({}, rng=rng)
     kind = rng.choice(sorted(SIG_CLASSES) + ['note', 'SimpleToken', 'SimpleToken', 'BarToken'])
     n = Node.__new__(Node)
     n.id = rng.randrange(1000)
+    n.stage = stage
     n.token = mk_sig_token(f, kind) if kind in SIG_CLASSES else mk_any_token(f, kind, 'child')
-    n.children = [subtree(rng, depth - 1) for _ in range(rng.choice([0, 1, 1, 2]))] if depth > 0 else []
+    n.children = [subtree(rng, depth - 1, stage + rng.choice([1, 1, 2])) for _ in range(rng.choice([0, 1, 1, 2]))] if depth > 0 else []
     return n
 
 
@@ -58,8 +59,8 @@ def mk_walk_node(g, token):
 
     def child(e):
         if e.symbolic:
-            return e.new(Node, {'id': e.int('id')}, None)
-        return subtree(_random.Random(e.int('id')), 3)
+            return e.new(Node, {'id': e.int('id'), 'stage': e.int('stage')}, None)
+        return subtree(_random.Random(e.int('id')), 3, 1)
     kids = g.mlist('node.children', child)
     n = g.new(Node, {'id': g.int('node.id', 1), 'token': token, 'parent': None, 'children': kids, 'stage': 0, 'header_node': None,
                      'last_signature_nodes': None, 'last_spine_operator_node': None}, None)
@@ -70,9 +71,10 @@ def mk_walk_node(g, token):
 
 @contract(EX + 'Exporter.is_signature_cancelled', props=['C08'])
 class is_signature_cancelled:
-    """R(s, n, a, b)  <=>  class(n) = class(s)  or  (n is neither a note nor a chord, a < b, and R(s, c, a + 1, b) for some child c of n).
-    So the look-ahead sees exactly the stages a..b (it does not run past the end of the excerpt), follows every sub-spine, and a
-    signature counts as restated only if no note or chord of that spine comes before the restatement."""
+    """R(s, n, a, b)  <=>  class(n) = class(s)  or  (n is neither a note nor a chord, a < b, and R(s, c, stage(c), b) for some child c
+    of n with stage(c) <= b).  So the look-ahead sees exactly the nodes whose stage is within the excerpt (rows that belong to no
+    spine -- global comments -- take a stage too: a depth counter would run past the end), follows every sub-spine, and a signature
+    counts as restated only if no note or chord of that spine comes before the restatement."""
     modifies = ('self.**',)
 
     def inputs(g):
@@ -88,5 +90,5 @@ class is_signature_cancelled:
     def post_recursive_equation(result, node, from_stage, to_stage, sig):
         same = type(node.token).__name__ == sig
         stops = isinstance(node.token, (NoteRestToken, ChordToken))
-        below = len([c for c in node.children if R(sig, c, from_stage + 1, to_stage)]) > 0
+        below = len([c for c in node.children if conj(c.stage <= to_stage, R(sig, c, c.stage, to_stage))]) > 0
         return iff(bool(result), disj(same, conj(not stops, from_stage < to_stage, below)))
